@@ -559,6 +559,7 @@ def plan_C06(ctx):
         "header long/compact, first/last) and each is executed on the real parser. Pipelining: generated messages laid back to back, "
         "parsed one after another from each returned offset with a Reset object, compared with each message parsed alone.")
     gen_corpus(ctx, 1, "framing", "C06")
+    if not ctx.quick: gen_corpus(ctx, 2, "framing", "C06", timeout=3600)       # two other header lines around the Content-Length line
     f, n = gen_corpus(ctx, 1 if ctx.quick else 2, "framing", "corpus", keep_every=(5 if ctx.quick else 3))
     ctx.explore(dict(mode="pipeline", cfgs=[mk(flags=fl, hcap=h, ccap=c) for fl in (0, 2, 4, 6) for (h, c) in ((-1, -1), (2, 1))],
                      inputs_file=f, extra=dict(depth=3 if ctx.quick else 4)), "pipelines")
